@@ -296,8 +296,13 @@ def leaf_correspondence(ctx, tools, exe):
     meta = []
     for cname, tmpl in sorted(SWZ_CONTEXTS.items()):
         # the whole domain through one access path; the other paths share swizzleIndex/swizzlePattern:
-        # all names up to two letters plus a seeded sample of the rest (everything in the thorough tier)
-        dom = names if (cname == "param_value" or ctx.thorough) else short + rs.fork(cname).shuffle([n for n in names if len(n) > 2])[:120]
+        # all names up to two letters plus a seeded sample of the rest (all names up to three letters in the thorough tier)
+        if cname == "param_value":
+            dom = names
+        elif ctx.thorough:
+            dom = [n for n in names if len(n) <= 3]
+        else:
+            dom = short + rs.fork(cname).shuffle([n for n in names if len(n) > 2])[:120]
         for w in (2, 3, 4):
             for nm in dom:
                 meta.append((cname, w, nm))
@@ -490,6 +495,34 @@ def report(ctx, scope, cases):
                               key=key)
 
 
+def replay(ctx, tools):
+    """bin/check C11 --replay <dir>: compile <dir>/input.wgsl again; it must be rejected with a position in the text"""
+    import os
+    path = ctx.replay
+    f = os.path.join(path, "input.wgsl") if os.path.isdir(path) else path
+    with open(f, encoding="utf-8", errors="surrogateescape") as fh:
+        src = fh.read()
+    res = nagarun.parallel_batches(tools["c11drive"], "diag", [{"id": 0, "src": src, "want": ["text"]}])
+    r = res.get(0) or {}
+    lines = line_lengths(src)
+    p = r.get("pos")
+    inside = bool(p) and 1 <= p[0] <= len(lines) and 1 <= p[1] <= lines[p[0] - 1] + 1
+    ctx.cov["replay"] = {"file": f, "stage": r.get("stage"), "err": r.get("err"), "pos": p, "compile_rejected": r.get("compile_rejected"),
+                         "outputs": r.get("outputs"), "position_inside_source": inside}
+    ctx.cov["evaluations"] = ctx.cov["distinct_nontrivial"] = 1
+    ctx.cov["obligations"] = ctx.cov["discharged"] = 0
+    ctx.cov["checker_cmd"] = "replay only (no proof step)"
+    ctx.cov["rule"] = "one replayed input"
+    ctx.sample(ctx.cov["replay"])
+    print("replay %s: stage=%r rejected_by_Compile=%r pos=%r err=%s" % (f, r.get("stage"), r.get("compile_rejected"), p, (r.get("err") or "")[:200]))
+    if not r.get("stage") or not r.get("compile_rejected") or "crash" in r or "panic" in r:
+        ctx.violation("replayed input is still not rejected: %s" % json.dumps({k: r.get(k) for k in ("stage", "compile_bytes", "outputs", "crash", "panic")}),
+                      files={"input.wgsl": src}, key="replay:not-rejected")
+    elif not inside:
+        ctx.violation("replayed input is rejected without a position inside the source: %s" % (r.get("err") or "")[:300],
+                      files={"input.wgsl": src}, key="replay:position")
+
+
 def run(ctx):
     import time
     T = {}
@@ -501,6 +534,8 @@ def run(ctx):
     ctx.cov["timings_s"] = T
     tools = vcheck.build_harness(["goextract", "c11drive"])
     lap("go_build")
+    if getattr(ctx, "replay", None):
+        return replay(ctx, tools)
     ok, failed, log = vcheck.proof_step(
         ctx, "Props/C11.v", MODEL_FILES, gen_writer=lambda: gen.regenerate(tools, ["diag"]),
         extra_obligation_files=["Diag/DiagInst.v"])
